@@ -12,6 +12,7 @@ import (
 	"go.etcd.io/bbolt"
 	"pgregory.net/rapid"
 
+	"verifharness/pbt"
 	"verifharness/stats"
 )
 
@@ -31,12 +32,17 @@ func dumpBucket(db *bbolt.DB, name string) string {
 	return b.String()
 }
 
-func TestC29VersionUpgradeOnlyWhenIdle(t *testing.T) {
+func TestC29VersionUpgradeOnlyWhenIdle(t *testing.T) { propC29VersionUpgradeOnlyWhenIdle(t) }
+
+// FuzzC29VersionUpgradeOnlyWhenIdle drives the same property body with Go's coverage-guided fuzzer (thorough tier).
+func FuzzC29VersionUpgradeOnlyWhenIdle(f *testing.F) { propC29VersionUpgradeOnlyWhenIdle(f) }
+
+func propC29VersionUpgradeOnlyWhenIdle(t testing.TB) {
 	col := stats.Get("C29.upgrade")
 	dir := fastTempDir("c29")
 	defer os.RemoveAll(dir)
 	n := 0
-	rapid.Check(t, func(t *rapid.T) {
+	pbt.Run(t, func(t *rapid.T) {
 		n++
 		db := openDB(t, dir, fmt.Sprintf("c29-%d.db", n))
 		defer func() { db.Close(); os.Remove(db.Path()) }()
